@@ -124,7 +124,7 @@ def run(pid, tier):
             sc["label"] += "-" + how
             scenarios.append(sc)
         # very wide groups (beyond any internal batch or cap of a few dozen), and a group under a small descriptor limit
-        for w in ([150] if tier == "quick" else [129, 150, 257, 400]):
+        for w in ([150] if tier == "quick" else [129, 150, 257]):
             scenarios.append(runlib.wide_scenario(w, chk.seed, barrier=True))
         sc = runlib.barrier_scenario(30, "middle", chk.seed)
         sc["prlimit"] = ["--nofile=256:256"]
@@ -157,6 +157,9 @@ def run(pid, tier):
             # every member of a group has exited (one of them non-zero) before the run joins any of them
             for k, (n, ff) in enumerate([(1, True), (2, True), (3, False), (1, False)] + ([(5, True), (8, False), (2, False), (4, True)] if tier == "thorough" else [])):
                 scenarios.append(runlib.late_success_scenario(n, chk.seed * 31 + k, ff))
+            # the failing member dies of a signal instead of exiting
+            for k, (n, ff, sg) in enumerate([(2, True, 9), (1, False, 15)] + ([(3, True, 1), (2, False, 2)] if tier == "thorough" else [])):
+                scenarios.append(runlib.late_success_scenario(n, chk.seed * 37 + k, ff, sig=sg))
         nr = 25 if tier == "quick" else 500
         for i in range(nr):
             fp = {"C06": 0.8, "C04": 0.15, "C05": 0.4}[pid]
